@@ -79,6 +79,21 @@ def htlcRaw (polOk : Nat → Bool → Nat → Bool) (htlcKey : Key) (s : Setup) 
           else if !polOk rate offered cltv then .error .policy
           else .ok (cr.sign htlcKey rs)                      -- signs the recomposed sighash
     | _, _ => .error .panic                                  -- `tx.input[0]` / `tx.output[0]`
+
+/-- what `EnforcementState` records about the counterparty commitments signed last (ids of per-commitment points) -/
+structure CpPoints where
+  current : Option Nat
+  previous : Option Nat
+deriving DecidableEq, Repr
+
+/-- `Channel::sign_counterparty_htlc_tx(tx, remote_per_commitment_point, …)`: the transaction keys the supplied
+    transaction is validated with (`make_counterparty_tx_keys(point)`) **and** the key that signs
+    (`derive_private_key(point, htlc_base_key)`) both come from the per-commitment point *of the request*; the points
+    recorded in the enforcement state (`_st`) are not consulted — the HTLC transactions of any commitment, not only
+    of the one signed last, can be requested. -/
+def signCounterpartyHtlcTx (polOk : Nat → Bool → Nat → Bool) (keysOf : Nat → Keys) (htlcKeyOf : Nat → Key)
+    (_st : CpPoints) (s : Setup) (point : Nat) (tx : StageTx H) (redeem : Script) (amount : Nat) : Except Kind S :=
+  htlcRaw wsh cr polOk (htlcKeyOf point) s (keysOf point) tx redeem amount
 end
 
 end VlsModel.Bolt3
